@@ -6,7 +6,6 @@ use actix_web::http::header::{HeaderName, HeaderValue};
 use actix_web::http::Method;
 use actix_web::{test, App};
 use bytes::Bytes;
-use futures::executor::block_on;
 use futures::stream;
 use taskchampion_sync_server::WebServer;
 
@@ -63,6 +62,11 @@ pub enum Body {
     Lazy { total: usize, chunk: usize },
     /// the given chunks, then a payload error
     ThenError(Vec<Vec<u8>>),
+    /// the chunks, with the transfer stalling for `secs` (virtual) seconds before chunk
+    /// `stall_before`: the gap between two network chunks is part of "however the upload was
+    /// split"; the service runs on a paused tokio clock that jumps to the next timer when idle,
+    /// so a server-side read timeout shorter than the stall fires deterministically
+    Stall { chunks: Vec<Vec<u8>>, stall_before: usize, secs: u64 },
     /// chunks delivered only when the shared gate says it is this stream's turn: lets the
     /// harness enumerate every interleaving of the chunk deliveries of overlapping uploads
     Gated { chunks: Vec<Vec<u8>>, id: usize, gate: std::sync::Arc<Gate> },
@@ -90,6 +94,38 @@ impl std::fmt::Debug for Gate {
 impl Gate {
     pub fn new(order: Vec<usize>) -> std::sync::Arc<Gate> {
         std::sync::Arc::new(Gate { inner: std::sync::Mutex::new(GateInner { order, pos: 0, wakers: vec![], gone: vec![] }) })
+    }
+}
+
+struct StallStream {
+    chunks: std::collections::VecDeque<Bytes>,
+    delivered: usize,
+    stall_before: usize,
+    secs: u64,
+    sleep: Option<std::pin::Pin<Box<tokio::time::Sleep>>>,
+    slept: bool,
+}
+
+impl futures::Stream for StallStream {
+    type Item = Result<Bytes, actix_http::error::PayloadError>;
+    fn poll_next(mut self: std::pin::Pin<&mut Self>, cx: &mut std::task::Context<'_>) -> std::task::Poll<Option<Self::Item>> {
+        use std::future::Future;
+        use std::task::Poll;
+        if self.delivered == self.stall_before && !self.slept {
+            if self.sleep.is_none() {
+                let d = std::time::Duration::from_secs(self.secs);
+                self.sleep = Some(Box::pin(tokio::time::sleep(d)));
+            }
+            match self.sleep.as_mut().unwrap().as_mut().poll(cx) {
+                Poll::Pending => return Poll::Pending,
+                Poll::Ready(()) => {
+                    self.slept = true;
+                    self.sleep = None;
+                }
+            }
+        }
+        self.delivered += 1;
+        Poll::Ready(self.chunks.pop_front().map(Ok))
     }
 }
 
@@ -175,6 +211,7 @@ impl HttpReq {
                 c.iter().map(|x| x.len()).collect::<Vec<_>>()
             ),
             Body::Gated { chunks, id, .. } => format!("gated#{id}{:?}", chunks.iter().map(|x| x.len()).collect::<Vec<_>>()),
+            Body::Stall { chunks, stall_before, secs } => format!("chunks{:?} stalling {secs}s before #{stall_before}", chunks.iter().map(|x| x.len()).collect::<Vec<_>>()),
         };
         format!("{} {} [{}] body={}", self.method, self.uri, hs.join("; "), b)
     }
@@ -185,12 +222,18 @@ type CallFn = Box<dyn Fn(Request) -> futures::future::LocalBoxFuture<'static, Re
 /// The initialised actix service for one `WebServer`.
 pub struct HttpApp {
     call: CallFn,
+    /// current-thread runtime with a paused clock (it jumps to the next timer whenever nothing
+    /// else can run) + the local task set actix needs
+    rt: tokio::runtime::Runtime,
+    local: tokio::task::LocalSet,
 }
 
 impl HttpApp {
     pub fn new(ws: &WebServer) -> HttpApp {
         let ws = ws.clone();
-        let app = std::rc::Rc::new(block_on(test::init_service(
+        let rt = tokio::runtime::Builder::new_current_thread().enable_time().start_paused(true).build().expect("tokio runtime");
+        let local = tokio::task::LocalSet::new();
+        let app = std::rc::Rc::new(local.block_on(&rt, test::init_service(
             App::new().configure(move |cfg| ws.config(cfg)),
         )));
         let call: CallFn = Box::new(move |req: Request| {
@@ -232,7 +275,7 @@ impl HttpApp {
                 }
             })
         });
-        HttpApp { call }
+        HttpApp { call, rt, local }
     }
 
     /// Two requests in flight at once on this (single-threaded) service, as on one actix worker.
@@ -245,12 +288,12 @@ impl HttpApp {
             Ok(r) => r,
             Err(e) => return (Err(e.clone()), Err(e)),
         };
-        block_on(futures::future::join((self.call)(ra), (self.call)(rb)))
+        self.local.block_on(&self.rt, futures::future::join((self.call)(ra), (self.call)(rb)))
     }
 
     pub fn send(&self, r: &HttpReq) -> Result<RawHttp, String> {
         let req = self.build(r)?;
-        block_on((self.call)(req))
+        self.local.block_on(&self.rt, (self.call)(req))
     }
 
     /// Build one request. Err = the request cannot be constructed (syntactically invalid for the
@@ -285,6 +328,14 @@ impl HttpApp {
                 items.push(Err(actix_http::error::PayloadError::Incomplete(None)));
                 Box::pin(stream::iter(items))
             }
+            Body::Stall { chunks, stall_before, secs } => Box::pin(StallStream {
+                chunks: chunks.iter().map(|c| Bytes::from(c.clone())).collect(),
+                delivered: 0,
+                stall_before: *stall_before,
+                secs: *secs,
+                sleep: None,
+                slept: false,
+            }),
             Body::Gated { chunks, id, gate } => Box::pin(GatedStream {
                 id: *id,
                 chunks: chunks.iter().map(|c| Bytes::from(c.clone())).collect(),
